@@ -212,7 +212,16 @@ def judgeCols (env : Env) (s s' : State) (op : Op) : String :=
   let overlap : Bool := match op with
     | .copy a b | .copyB a b _ =>
       (match absM env a s, absM env b s with
-       | (.ok ka, _), (.ok kb, _) => ka.isPrefixOf kb || kb.isPrefixOf ka
+       | (.ok ka, _), (.ok kb, _) =>
+         let followed : Bool := match op with | .copyB _ _ c => c.follow | _ => false
+         -- with follow the copy also reads what links below the source point to: a link into the
+         -- destination (or back into the source) makes it read entries it is creating
+         let viaLink : Bool := followed && s.entries.any (fun kv =>
+           kv.2.link && ka.isPrefixOf kv.1 &&
+             (match kv.2.alt with
+              | some t => t.isPrefixOf kb || kb.isPrefixOf t || t.isPrefixOf ka || ka.isPrefixOf t
+              | none => false))
+         ka.isPrefixOf kb || kb.isPrefixOf ka || viaLink
        | _, _ => false)
     | _ => false
   spec ++ "\t" ++ (if overlap then "copy_overlap" else classOf s env op) ++ "\t" ++ inv
